@@ -912,7 +912,7 @@ DLG_READ_VARIANTS = ["len-2", "len-1", "len+1", "len+2", "len+3", "len+4", "nb+1
 DLG_VARIANTS = {0x00: DLG_POLL_VARIANTS, 0x06: DLG_READ_VARIANTS}
 # SENSF_RES that is neither "with" nor "without" system code: outside the quantifier of C08, observed only
 DLG_ODD_RD = [b"\x12", b"\x12\xFC\x00", b"\x12\xFC\x00\x83"]
-C08_ODD_SENSF_RES_IS_VIOLATION = False
+C08_ODD_SENSF_RES_IS_VIOLATION = True
 
 
 def dlg_layout(cls, kind, ic, shape, prefix, rng):
